@@ -2,7 +2,7 @@ PROP = {
     "id": "C28",
     "coq_targets": ["Properties/C28.vo", "Extract/C28Extract.vo"],
     "properties_file": "Properties/C28.v",
-    "theorems": ["C28_mirror", "C28_nothing_remains", "C28_observers_follow", "C28_observers_disposed"],
+    "theorems": ["C28_mirror_partial", "C28_mirror_refuted", "C28_nothing_remains", "C28_observers_follow", "C28_observers_disposed"],
     "allowed_axioms": [],
     "harness": "c28",
     "modelrun": {"name": "c28", "extracted": ["c28_model"], "driver": "ocaml/c27/c27_run.ml"},
